@@ -328,6 +328,22 @@ pub fn rule(p: Prof, r: RuleFn, s: &str) -> Out {
     )
 }
 
+/// the same rule, handed an owned `String` (exercises the `Cow::Owned` paths)
+pub fn rule_owned(p: Prof, r: RuleFn, s: &str) -> Out {
+    let o = s.to_string();
+    with_profile!(
+        p,
+        x,
+        match r {
+            RuleFn::Width => conv(guard(|| x.width_mapping_rule(o))),
+            RuleFn::Additional => conv(guard(|| x.additional_mapping_rule(o))),
+            RuleFn::Case => conv(guard(|| x.case_mapping_rule(o))),
+            RuleFn::Norm => conv(guard(|| x.normalization_rule(o))),
+            RuleFn::Dir => conv(guard(|| x.directionality_rule(o))),
+        }
+    )
+}
+
 pub fn allows(c: Class, s: &str) -> OutU {
     let r = match c {
         Class::Identifier => guard(|| IdentifierClass::default().allows(s)),
